@@ -68,21 +68,14 @@ type c13Run struct {
 	windows     []string
 }
 
-// runC13World drives one world: honest ceremony + one batch, with the crash
-// spec applied to the victim.
-func runC13World(w *World, tier string, spec *crashSpec, out *c13Run) (bool, interface{}) {
-	n := 2 + w.Tape.Choose(2, "n") // 2..3 (crash positions grow with n)
-	if tier == "thorough" && w.Tape.Bool(1, 4, "n4") {
-		n = 4
-	}
-	t := 2 + w.Tape.Choose(n-1, "t")
-	c := NewCluster(w, n)
-	c.L.Faults.PermuteResults = true
-	members := AllMembers(n)
-	victim := w.Tape.Choose(n, "victim")
-	so := &signOracle{c: c, prop: "C13"}
-	so.install()
-
+// installCrashKeeper wires the crash plan of one victim node into the world:
+// records the victim's gate sequence (reference runs), kills the process at the
+// planned gates / stops it cleanly at the planned steps, restarts it on the same
+// state directory after a tape-chosen number of steps and judges, right after
+// the restart, that every operation that was pending is still offered and that
+// no retired one is back. The returned function is to be called after every
+// scheduler step.
+func installCrashKeeper(w *World, victim int, spec *crashSpec, out *c13Run) func() {
 	// observation of the victim: last durable write, what it is handling
 	lastWrite := "none"
 	var hookInc *Incarnation
@@ -207,6 +200,25 @@ func runC13World(w *World, tier string, spec *crashSpec, out *c13Run) (bool, int
 		}
 		afterStep()
 	}
+	return step
+}
+
+// runC13World drives one world: honest ceremony + one batch, with the crash
+// spec applied to the victim.
+func runC13World(w *World, tier string, spec *crashSpec, out *c13Run) (bool, interface{}) {
+	n := 2 + w.Tape.Choose(2, "n") // 2..3 (crash positions grow with n)
+	if tier == "thorough" && w.Tape.Bool(1, 4, "n4") {
+		n = 4
+	}
+	t := 2 + w.Tape.Choose(n-1, "t")
+	c := NewCluster(w, n)
+	c.L.Faults.PermuteResults = true
+	members := AllMembers(n)
+	victim := w.Tape.Choose(n, "victim")
+	so := &signOracle{c: c, prop: "C13"}
+	so.install()
+
+	step := installCrashKeeper(w, victim, spec, out)
 	// proposals: a human whose command died with the process issues it again
 	// after the restart (same bytes, hence the same round id)
 	proposer := w.Tape.Choose(n, "proposer")
@@ -318,14 +330,20 @@ func pendingTypes(w *World) []string {
 // the victim, outcome), then re-runs the same tape once per crash position
 // (all of them in the thorough tier, a tape-chosen sample in the quick tier),
 // plus clean stops and a multi-crash run.
+type c13World func(w *World, tier string, spec *crashSpec, out *c13Run) (bool, interface{})
+
 func c13Driver(t *testing.T, sc *Scenario, tier string, tape *sim.Tape, keepAll bool) sim.RunResult {
+	return c13DriverWith(runC13World, t, sc, tier, tape, keepAll)
+}
+
+func c13DriverWith(world c13World, t *testing.T, sc *Scenario, tier string, tape *sim.Tape, keepAll bool) sim.RunResult {
 	ref := &c13Run{}
 	sub := func(params map[string]string, rec *c13Run) sim.RunResult {
 		tp := tape.Fork()
 		tp.Params = params
 		return runBubble(t, tier, tp, keepAll, func(w *World) (bool, interface{}) {
 			w.Prop = "C13"
-			return runC13World(w, tier, specFrom(params), rec)
+			return world(w, tier, specFrom(params), rec)
 		})
 	}
 	res := sub(map[string]string{"mode": "reference"}, ref)
